@@ -109,6 +109,9 @@ type LSpec struct {
 	// its declarations (the file was produced from a template elsewhere); positions reported
 	// through the directive must not move the output.
 	LineDirectives map[string]string `json:"line_directives,omitempty"`
+	// DirLinks: directory symbolic links inside the module (link → existing target directory);
+	// an output path that goes through a link is the file under the target.
+	DirLinks map[string]string `json:"dir_links,omitempty"`
 	// LinkedFiles: declaring file (dir/file) → path of the regular file it is a symbolic link
 	// to (a shared source kept outside every package directory). Outputs stay relative to the
 	// declaring file, i.e. to the link.
@@ -175,6 +178,11 @@ func (s *LSpec) Predict(c *LConv) Predicted {
 		p.Path = path.Clean(strings.TrimPrefix(of, RootPlaceholder+"/"))
 	default:
 		p.Path = path.Join(c.Dir, of)
+	}
+	for link, target := range s.DirLinks {
+		if strings.HasPrefix(p.Path, link+"/") {
+			p.Path = target + strings.TrimPrefix(p.Path, link)
+		}
 	}
 	dir := path.Dir(p.Path)
 	if dir == "." {
@@ -508,6 +516,12 @@ func (s *LSpec) renderConv(b *strings.Builder, c *LConv) {
 // World renders the spec as a world. Patterns list every declaring package.
 func (s *LSpec) World(name string) *World {
 	w := &World{Name: name, Module: DefaultModule, Files: s.Render(), Tags: []string{"layout"}}
+	for link, target := range s.DirLinks {
+		if w.Symlinks == nil {
+			w.Symlinks = map[string]string{}
+		}
+		w.Symlinks[link] = target
+	}
 	for link, target := range s.LinkedFiles {
 		if _, ok := w.Files[target]; ok {
 			if w.Symlinks == nil {
